@@ -56,7 +56,7 @@ TGen ==
   /\ IsEvent("TypeGen")
   /\ LET e == Rec[l]
          S == MergeItems(CatFiles(e.schemaFiles, 1))
-         cfg == [allowUndefined |-> e.cfg.allowUndefined, scalars |-> e.scalars]
+         cfg == [allowUndefined |-> e.cfg.allowUndefined, scalars |-> e.scalars, modelPlugin |-> FALSE, modelTypes |-> <<>>]
      IN IF e.panicked THEN Report(e, {Item("panic", "generate panicked", [diag |-> e.diag])})
         ELSE IF e.exit # 0 THEN Report(e, {Item("generate-failed", "generate failed on a valid schema and operation", [diag |-> e.diag])})
         ELSE IF e.schemaTs.k # "ok" \/ e.opTs[1].k # "ok" THEN Report(e, {Item("declaration-unreadable", "a declaration file is missing or not well-formed", [schema |-> e.schemaTs.k, op |-> e.opTs[1].k])})
